@@ -416,7 +416,7 @@ def _random_histories(ctx: Ctx, n: int) -> list[tuple[tuple[int, int], list]]:
         loads = [rk for rk in ("rk1", "rk2") if rng.random() < 0.5]
         while todo or pending:
             choices = []
-            if rng.random() < 0.12 and len([e for e in hist if e[0] == "tick"]) < 3:
+            if rng.random() < 0.15 and len([e for e in hist if e[0] == "tick"]) < 4:
                 # time passes: later position in the same L0, or the first/any interval of the next L0
                 cur_l0 = next((e[1] for e in reversed(hist) if e[0] == "tick"), 2)
                 cur = next((tuple(e[2]) for e in reversed(hist) if e[0] == "tick"), now)
@@ -424,7 +424,7 @@ def _random_histories(ctx: Ctx, n: int) -> list[tuple[tuple[int, int], list]]:
                     nxt = (cur_l0 + 1, rng.choice([(0, 0), (0, 1), (rng.randrange(32), rng.randrange(32))]))
                 else:
                     later = [(a, b) for a in range(cur[0], 32) for b in range(32) if (a, b) > cur]
-                    nxt = (cur_l0, rng.choice(later)) if later else None
+                    nxt = (cur_l0, later[0] if rng.random() < 0.5 else rng.choice(later)) if later else None   # often the adjacent interval
                 if nxt and not any(k.endswith("#") for k in pending) and not any(v == "sync" for v in pending.values()):
                     hist.append(["tick", nxt[0], list(nxt[1])])
                     now = nxt[1]
